@@ -194,10 +194,14 @@ where
     | scope, k :: ks => NSNode.Well scope k ∧ wellList scope ks
 
 /-- The values of the attributes with expanded name (XML namespace, `id`) — however the prefix is
-    spelled — in document order: `open_element` rejects a repeated one (`seen_ids`). -/
+    spelled. -/
+def attrIds (attrs : List ((Str × Str) × Str)) : List Str :=
+  (attrs.filter fun kv => kv.1 == (xmlNsUri, ['i', 'd'])).map Prod.snd
+
+/-- The ID values of a document, in document order: `open_element` rejects a repeated one
+    (`seen_ids`). -/
 def NPNode.ids : NPNode → List Str
-  | .elem _ _ _ attrs kids =>
-    (attrs.filter fun kv => kv.1 == (xmlNsUri, ['i', 'd'])).map Prod.snd ++ idsList kids
+  | .elem _ _ _ attrs kids => attrIds attrs ++ idsList kids
   | _ => []
 where
   idsList : List NPNode → List Str
